@@ -39,7 +39,8 @@ class World:
     def __init__(self, N):
         from refs import merkle as M
         self.N = N
-        self.raws = {n: [make_raw_tx(n, i) for i in range(n)] for n in range(1, N + 1)}
+        self.full_swap_max = FULL_NODE_SWAP_MAX_N
+        self.raws ={n: [make_raw_tx(n, i) for i in range(n)] for n in range(1, N + 1)}
         self.leaves = {n: [M.sha256d(r) for r in self.raws[n]] for n in self.raws}
         self.levels = {n: M.levels(self.leaves[n]) for n in self.raws}
         self.roots = {}                    # height -> root (internal byte order) of the header there
@@ -166,7 +167,7 @@ def mutations(w, n, i):
     # branch element replaced by another node of the tree
     lv = w.levels[n]
     for d in range(depth):
-        if n <= FULL_NODE_SWAP_MAX_N:
+        if n <= w.full_swap_max:
             cands = [(l, k) for l in range(len(lv)) for k in range(len(lv[l]))]
         else:
             cands = [(d, k) for k in range(len(lv[d]))] + [(d + 1, (i >> (d + 1)))] + ([(d - 1, (i >> (d - 1)))] if d else [])
@@ -181,6 +182,12 @@ def mutations(w, n, i):
     for j in range(n):
         if j != i and bin(i ^ j).count('1') > 1:
             yield 'pos-index', j, raw, h, {'block_height': h, 'merkle': br, 'pos': j}
+    # a negative position with the same low bits (Python's >> is arithmetic: fold-equivalent, tallied)
+    yield 'pos-negative', 0, raw, h, {'block_height': h, 'merkle': br, 'pos': i - (1 << (depth + 1))}
+    # two neighbouring branch elements exchanged
+    for d in range(depth - 1):
+        if br[d] != br[d + 1]:
+            yield 'branch-swap-order', d, raw, h, with_branch(br[:d] + [br[d + 1], br[d]] + br[d + 2:])
     # branch length
     for d in range(depth):
         yield 'branch-drop', d, raw, h, with_branch(br[:d] + br[d + 1:])
@@ -293,13 +300,36 @@ def direct_root_check(w, res, n, i):
 NETWORK_TOO = ('genuine', 'height', 'no-merkle-key', 'pos-bit', 'branch-drop')
 
 
+def reused_object_history(w, impl, res, n, i):
+    """Outside the statement's quantifier (inputs, fresh transaction objects as the wallet creates them):
+    what happens to an already verified Transaction object that is presented again.  Tallied only."""
+    from lbry.wallet.transaction import Transaction
+    g = genuine(w, n, i)
+    h = height_of(n)
+    tx = Transaction(w.raws[n][i])
+    impl.loop.run(impl.ledger.maybe_verify_transaction(tx, h, g))
+    if not tx.is_verified:
+        return
+    bad = dict(g, pos=i ^ 1) if n > 1 and not (i ^ 1 >= n) else dict(g, merkle=g['merkle'] + ['00' * 32])
+    impl.loop.run(impl.ledger.maybe_verify_transaction(tx, h, bad))
+    res.tally('interpretation_only:reused-tx-object-bad-proof-' + ('keeps' if tx.is_verified else 'clears') + '-flag')
+    tx = Transaction(w.raws[n][i])
+    impl.loop.run(impl.ledger.maybe_verify_transaction(tx, h, g))
+    impl.loop.run(impl.ledger.maybe_verify_transaction(tx, w.length + 5, dict(g, block_height=w.length + 5)))
+    res.tally('interpretation_only:reused-verified-tx-object-at-unknown-height-' +
+              ('keeps' if tx.is_verified else 'clears') + '-flag')
+
+
 def work(item, res):
-    N, n, reduced = item
+    N, n, reduced, full_swap_max = item
     w = world(N)
+    w.full_swap_max = full_swap_max
     impl = Impl(w)
     try:
         for i in range(n):
             direct_root_check(w, res, n, i)
+            if i in (0, n - 1):
+                reused_object_history(w, impl, res, n, i)
             g = genuine(w, n, i)
             for via in (False, True):
                 judge_case(w, impl, res, n, i, 'genuine', 0, w.raws[n][i], height_of(n), g, via)
@@ -333,7 +363,8 @@ def run(ctx):
     full = list(range(1, 17)) if ctx.quick else list(range(1, N + 1))
     # quick also visits the deep boundary shapes with a reduced tx-byte / node-swap sweep
     spot = [17, 31, 32, 33, 63, 64] if ctx.quick else []
-    items = [(N, n, False) for n in full] + [(N, n, True) for n in spot]
+    fsm = FULL_NODE_SWAP_MAX_N if ctx.quick else 32
+    items = [(N, n, False, fsm) for n in full] + [(N, n, True, fsm) for n in spot]
     items.sort(key=lambda it: -it[1])
     ctx.pmap(work, items)
     w = world(N)
@@ -346,13 +377,15 @@ def run(ctx):
     ctx.meta.update(
         rule=('for every block size n in the stated set, every index i < n: the genuine proof (direct and via the '
               'network stub) and every single mutation: 3 bit flips per branch element; each branch slot replaced by '
-              f'every tree node (n <= {FULL_NODE_SWAP_MAX_N}) or every node of its level and the on-path nodes of the '
-              'adjacent levels (n > 16); every position bit 0..depth+1 and bit 64; every other index as position; each '
+              f'every tree node (n <= {fsm}) or every node of its level and the on-path nodes of the '
+              'adjacent levels (larger n); every position bit 0..depth+1 and bit 64; every other index as position; a '
+              'negative position with the same low bits; neighbouring branch elements exchanged; each '
               'branch element dropped; 8 one-element extensions; every tx byte xor 0x01 / 0x80; every other tx of the '
               'block; heights h-1, h+1 (roots differing from the genuine root in one bit), 0, -1, -2, len, len+1, 10^9; '
               'answer without a merkle key.  Non-trivial/distinct = distinct (mutation kind, n, i, detail) tuples.'),
         exhaustive=True,
-        bounds={'block_sizes_full': [full[0], full[-1]], 'block_sizes_reduced_sweep': spot, 'headers': w.length},
+        bounds={'block_sizes_full': [full[0], full[-1]], 'block_sizes_reduced_sweep': spot, 'headers': w.length,
+                'every_tree_node_in_every_branch_slot_up_to_n': fsm},
         assumptions=['synthetic headers (difficulty validation off): proof of work is not part of this property',
                      'a position / sibling change that leaves the folded value unchanged is fold-equivalent (tallied)',
                      'the genesis height is never verified by design of the wallet (tallied, not demanded)',
@@ -371,9 +404,13 @@ def replay(data):
         log = 'direct get_root_of_merkle_tree on the genuine proof'
     else:
         impl = Impl(w)
+        w.full_swap_max = 64          # superset of both tiers' candidate sets: any recorded case is found
         try:
             detail = data['detail']
             detail = tuple(detail) if isinstance(detail, list) else detail
+            # the check presents the genuine proof of (n, i) to the same ledger before any mutant: same history here
+            for via in (False, True):
+                judge_case(w, impl, Result(), n, i, 'genuine', 0, w.raws[n][i], height_of(n), genuine(w, n, i), via)
             if kind == 'genuine':
                 case = ('genuine', 0, w.raws[n][i], height_of(n), genuine(w, n, i))
             else:
